@@ -279,6 +279,11 @@ def build_fn(repo, blk, log, abstract=()):
         # (this function is then UNDECIDED by lane V; the rest of the unit is still checked)
         ed.replace(body_rel + 1, len(text) - 1, ' unimplemented!() ', 'ABSTRACTED')
 
+    annotated_loops = set()
+    for (word, rest, raw, tline) in blk.subs:
+        mm0 = re.match(r'(?:\w+\s+)?(?:loop\s+)?(\d+)', rest) if word == 'loop' else re.match(r'\w+\s+loop\s+(\d+)', rest) if word in ('idiom', 'idiom?') else None
+        if mm0:
+            annotated_loops.add(int(mm0.group(1)))
     for (word, rest, raw, tline) in blk.subs:
         if is_abstract and word in ('loop', 'before', 'after', 'idiom', 'idiom?'):
             continue
@@ -333,6 +338,13 @@ def build_fn(repo, blk, log, abstract=()):
         else:
             raise GenError('unknown directive //@%s' % word)
 
+    # a loop the template has no invariant for: whatever follows it cannot be proved -- a failure in this function is a
+    # failed proof attempt (reported as undecided unless a lane with concrete inputs confirms it)
+    unannotated = [k for k in range(1, len(loops) + 1) if k not in annotated_loops]
+    if unannotated and not is_abstract:
+        log.setdefault('unannotated_loops', []).append({'item': item_id, 'loops': unannotated})
+        if os.environ.get('VERIF_LOOP_RULE', '1') == '1':
+            lost.append('loop %s of the body has no invariant in the template' % ','.join(map(str, unannotated)))
     # D2 visibility
     vis_len = len(it.vis)
     if it.vis != vis:
